@@ -176,31 +176,43 @@ func ruleFinalityPairing(c *Ctx) {
 		if !ok {
 			return true
 		}
-		// find `X.Epoch + k == currentEpoch` among the conjuncts
-		var who *ast.Ident
+		// find `X.Epoch + k == currentEpoch` among the conjuncts, in any spelling: the difference of the two sides is
+		// +-(X.Epoch + k - <one other operand>)
+		who := ""
 		var k int64 = -1
 		for _, leaf := range flattenBool(is.Cond, token.LAND) {
 			be, ok := ast.Unparen(leaf).(*ast.BinaryExpr)
 			if !ok || be.Op != token.EQL {
 				continue
 			}
-			add, ok := ast.Unparen(be.X).(*ast.BinaryExpr)
-			if !ok || add.Op != token.ADD {
+			l, ok1 := exprPoly(info, be.X, nil, nil, 0)
+			r, ok2 := exprPoly(info, be.Y, nil, nil, 0)
+			if !ok1 || !ok2 {
 				continue
 			}
-			sel, ok := ast.Unparen(add.X).(*ast.SelectorExpr)
-			if !ok || sel.Sel.Name != "Epoch" {
+			p := polyAdd(l, r, -1)
+			var ep, other string
+			n := 0
+			for a := range p {
+				if a == "" {
+					continue
+				}
+				n++
+				if strings.HasSuffix(a, ".Epoch") && strings.Count(a, ".") == 1 {
+					ep = a
+				} else {
+					other = a
+				}
+			}
+			if n != 2 || ep == "" || other == "" || p[ep]*p[other] != -1 {
 				continue
 			}
-			id, ok := ast.Unparen(sel.X).(*ast.Ident)
-			if !ok {
-				continue
-			}
-			if v, ok := constantInt(info.Types[add.Y]); ok {
-				who, k = id, v
+			kk := p[""] * p[ep]
+			if kk >= 0 {
+				who, k = strings.TrimSuffix(ep, ".Epoch"), kk
 			}
 		}
-		if who == nil {
+		if who == "" {
 			return true
 		}
 		// the body assigns toFinalize = &Y
@@ -218,12 +230,12 @@ func ruleFinalityPairing(c *Ctx) {
 				continue
 			}
 			n++
-			key := fmt.Sprintf("ProcessEpochJustification.rule[%s+%d]", who.Name, k)
-			offsets = append(offsets, fmt.Sprintf("%s+%d", who.Name, k))
-			if info.ObjectOf(y) == info.ObjectOf(who) {
-				c.ok(key, is.Pos(), "tests %s.Epoch and finalizes %s", who.Name, y.Name)
+			key := fmt.Sprintf("ProcessEpochJustification.rule[%s+%d]", who, k)
+			offsets = append(offsets, fmt.Sprintf("%s+%d", who, k))
+			if y.Name == who {
+				c.ok(key, is.Pos(), "tests %s.Epoch and finalizes %s", who, y.Name)
 			} else {
-				c.bad(key, as.Pos(), "this finality rule tests `%s.Epoch + %d == current_epoch` but finalizes %s: the spec finalizes the checkpoint whose epoch it tested (a newer checkpoint that no justified successor used as source would be finalized)", who.Name, k, y.Name)
+				c.bad(key, as.Pos(), "this finality rule tests `%s.Epoch + %d == current_epoch` but finalizes %s: the spec finalizes the checkpoint whose epoch it tested (a newer checkpoint that no justified successor used as source would be finalized)", who, k, y.Name)
 			}
 		}
 		return true
